@@ -23,3 +23,12 @@ Theorem C05_classifier_relayout_invariant : forall p l l', relayout l l' ->
   aexec p (alpha l 0) [] <> Stuck -> exec p l 0 [] = exec p l' 0 [].
 Proof. exact classifier_relayout_invariant. Qed.
 Print Assumptions C05_classifier_relayout_invariant.
+
+Theorem C05_relayout_symmetric : forall l l', relayout l l' -> relayout l' l.
+Proof. exact relayout_sym. Qed.
+Print Assumptions C05_relayout_symmetric.
+
+Theorem C05_classifier_relayout_invariant_rev : forall p l l', relayout l l' ->
+  aexec p (alpha l' 0) [] <> Stuck -> exec p l 0 [] = exec p l' 0 [].
+Proof. exact classifier_relayout_invariant_rev. Qed.
+Print Assumptions C05_classifier_relayout_invariant_rev.
